@@ -74,7 +74,7 @@ def generate(R, tier):
     if kind == "strat-low":
         sc.update(fn=R.choice(sorted(LOW)), N=R.choice([64, 100, 250, 1000]), xosrc=R.choice(["arbitrary", "arbitrary", "map"]))
     elif kind == "strat-prot":
-        sc.update(prot=R.choice(sorted(PROT)), N=R.choice([50, 64, 100, 200]), xosrc=R.choice(["arbitrary", "map"]), inbred=R.random() < 0.6)
+        sc.update(prot=R.choice(sorted(PROT)), N=R.choice([50, 64, 100, 200]), xosrc=R.choice(["arbitrary", "map"]), inbred=R.random() < 0.6, dhhet=R.random() < 0.3)
     elif kind == "strat-chain":
         # two generations: the progeny object returned by one protocol is itself mated; its meioses must follow the same probabilities
         sc.update(prot=R.choice(["2w", "3w", "4w"]), N=R.choice([64, 100, 200]), xosrc=R.choice(["arbitrary", "map"]))
@@ -336,6 +336,11 @@ def execute(sc):
         C = cls.__name__ + ".mate"
         # inbred parents make the later meioses of the multi-way protocols readable (which founder pair / which founder)
         hetero = not isdh and not (sc.get("inbred") and sc["prot"] in ("3w", "4w"))
+        dhhet = bool(isdh and sc.get("dhhet"))
+        if dhhet:
+            # doubled haploids from heterozygous parents: every copy of every parent has to be transmitted at every locus
+            hetero = True
+            N = 400
         pg = _parents(sc, chrgrp, phypos, genpos, xo, 4, hetero)
         if isinstance(pg, str):
             if pg == "misordered":
@@ -349,7 +354,8 @@ def execute(sc):
         xo_eff = numpy.asarray(pg.vrnt_xoprob, dtype=float)
         xc = numpy.array([[0, 1, 2, 3][:npar]])
         try:
-            prog = cls(progeny_counter=0, family_counter=0, rng=g).mate(pg, xc, 1, N, nself=0)
+            # one progeny per mating when every progeny has to descend from its own hybrid
+            prog = cls(progeny_counter=0, family_counter=0, rng=g).mate(pg, xc, N if dhhet else 1, 1 if dhhet else N, nself=0)
         except Exception as e:
             V.append(viol("meiosis-completes", C, "raises:%s" % type(e).__name__, "%s: %s" % (type(e).__name__, e)))
             return _out(sc, V, log, faults, probes, 0, g)
@@ -378,6 +384,18 @@ def execute(sc):
                     if codes <= pair:
                         cols.append((pm[c] == max(pair)).astype(int))
             faults["readout_hybrid_gametes_of_four_way"] = 1
+        elif dhhet:
+            cols = []
+            faults["dh_from_heterozygous_parents"] = 1
+            if pm.shape[1] == N:
+                for j in range(pm.shape[2]):
+                    seen = set(numpy.unique(pm[0][:, j]).tolist())
+                    want = set(range(2 * npar))
+                    if not want <= seen:
+                        V.append(viol("one-half-transmission", C, "parental-copy-never-transmitted",
+                                      "marker %d: among %d doubled haploids of heterozygous parents the parental copies %s never occur (copies seen: %s)" % (j, N, sorted(want - seen), sorted(seen))))
+                        break
+                ncmp += pm.shape[2]
         elif isdh:
             # homozygous parents A x B (and C, D): the DH gamete comes from the hybrid; phase = which parent's code
             if sc["prot"] == "2wdh":
